@@ -23,7 +23,7 @@ export function merge(original: any, update: any): any {
         for (let i = x[0]; i < x[0] + x[1]; i++) {
           merged.push(original[i]);
         }
-      } else if (merged[x] === -1) {
+      } else if (x === -1) {
         merged.push(undefined);
       } else {
         merged.push(original[x]);
